@@ -18,7 +18,42 @@ from hdl21.external_module import ExternalModuleCall
 from hdl21.primitives import PrimitiveCall
 
 # number of referenced objects of the `ref` pool (see Universe.ref)
-NREF = 10
+NREF = 12
+# number of objects WITHOUT a JSON form of the `obj` pool (see Universe.obj)
+NOBJ = 15
+
+
+class UObj:
+    """base of the user types whose instances are handed over as parameter values"""
+
+
+class Plain(UObj):
+    """compared by identity, default repr (which holds the address)"""
+
+
+class Corner(UObj):
+    """a value type: equal and hashed by value, default repr"""
+
+    def __init__(self, name, temp):
+        self.name, self.temp = name, temp
+
+    def __eq__(self, other):
+        return type(other) is type(self) and (self.name, self.temp) == (other.name, other.temp)
+
+    def __hash__(self):
+        return hash((self.name, self.temp))
+
+
+class Lossy(Corner):
+    """a value type whose repr does not tell its values apart"""
+
+    def __repr__(self):
+        return "<corner>"
+
+
+class WithMethod(UObj):
+    def meth(self):
+        return 1
 
 
 def dec_tuple(d):
@@ -36,6 +71,7 @@ class Universe:
         self.enums = {}
         self.recs = {}
         self.refs = None
+        self.objs = {}
         self.runs = []
         self.classes = []
         self.gens = []
@@ -85,6 +121,10 @@ class Universe:
             return self.refs[i]
         Mos, R = h.primitives.Mos, h.primitives.IdealResistor
         spell = {
+            # sets: equal values built in other orders (their iteration order also depends on the interpreter's hash seed)
+            10: lambda: [frozenset(["alpha", "beta", "gamma", "delta"]), frozenset(["delta", "gamma", "beta", "alpha"]),
+                         frozenset(["gamma", "alpha", "delta", "beta", "alpha"])],
+            11: lambda: [frozenset(["alpha", "beta"]), frozenset(["beta", "alpha"])],
             4: lambda: [Mos(w=2 * K), Mos(w=2000 * UNIT), Mos(w="2.000e3"), Mos(w=Prefixed.new(2000000, MILLI))],
             5: lambda: [Mos(w=1 * K), Mos(w=1000), Mos(w=Decimal("1.0e3"))],
             6: lambda: [self.xp(r=2 * K), self.xp(r=2000 * UNIT), self.xp(r=2000.0)],
@@ -93,11 +133,74 @@ class Universe:
         }[i]()
         return spell[variant % len(spell)]
 
+    # parameter values that have no JSON form.  Built on demand inside the child, so that their addresses depend on what
+    # the history did before.  0, 1, 2, 5, 6, 7, 11 are compared by identity (one object per interpreter); 3, 4, 8, 9, 10
+    # by VALUE: every variant of one index is a separately built, equal object (8 and 9 are unequal, with one repr text)
+    OBJ_KIND = {0: "function", 1: "lambda", 2: "user_object", 3: "user_value_object", 4: "user_value_object", 5: "instance",
+                6: "builtin", 7: "partial", 8: "lossy_repr_object", 9: "lossy_repr_object", 10: "bound_method", 11: "class",
+                12: "lambda", 13: "closure", 14: "closure"}
+    # 1 and 12 are two different lambdas, 13 and 14 two different functions made by one `def` (one qualified name each pair)
+
+    def obj(self, i, variant=0):
+        import functools
+        i = i % NOBJ
+        key = (i, variant) if i in (3, 4, 8, 9, 10) else (i, 0)
+        if key in self.objs:
+            return self.objs[key]
+        if i == 0:
+            def f0():
+                return 0
+            x = f0
+        elif i == 1:
+            x = lambda: 1
+        elif i == 2:
+            x = Plain()
+        elif i == 3:
+            x = Corner("tt", 25)
+        elif i == 4:
+            x = Corner("ff", -40)
+        elif i == 5:
+            x = self.ref(0)()           # an Instance of module RefA
+        elif i == 6:
+            x = len
+        elif i == 7:
+            x = functools.partial(max, 1)
+        elif i == 8:
+            x = Lossy("a", 1)
+        elif i == 9:
+            x = Lossy("b", 2)
+        elif i == 10:
+            if "wm" not in self.objs:
+                self.objs["wm"] = WithMethod()
+            x = self.objs["wm"].meth    # a new bound-method object at every access; they compare equal
+        elif i == 11:
+            x = Plain
+        elif i == 12:
+            x = lambda: 2
+        else:
+            def make(k):
+                def scaled(v):
+                    return k * v
+                return scaled
+            x = make(i)
+        self.objs[key] = x
+        return x
+
+    def obj_index(self, x):
+        for k, y in self.objs.items():
+            if k != "wm" and y is x:
+                return k[0]
+        for i in (3, 4, 8, 9, 10):
+            y = self.obj(i)
+            if type(y) is type(x) and y == x:
+                return i
+        return None
+
     def ref_index(self, x):
         for i in (0, 1, 2, 3, 8):
             if self.ref(i) is x:
                 return i
-        for i in (4, 5, 6, 7, 9):
+        for i in (4, 5, 6, 7, 9, 10, 11):
             y = self.ref(i)
             if type(y) is type(x) and y == x:
                 return i
@@ -121,13 +224,19 @@ class Universe:
                 self.enums[n] = enum.Enum(f"E{n}", {f"M{i}": f"m{i}" for i in range(n)})
             return self.enums[n]
         if t == "ref":
-            return Union[h.Module, h.Generator, h.ExternalModule, ExternalModuleCall, PrimitiveCall]
+            from typing import FrozenSet
+            return Union[h.Module, h.Generator, h.ExternalModule, ExternalModuleCall, PrimitiveCall, FrozenSet[str]]
         if t == "scalar":
             return h.Scalar
         if t == "pref":
             return h.Prefixed
         if t == "dec":
             return Decimal
+        if t == "obj":
+            # arbitrary types (isinstance checks; Callable alone would also let Modules and Generators in)
+            import types, functools
+            from typing import Type
+            return Union[types.FunctionType, types.BuiltinFunctionType, types.MethodType, functools.partial, UObj, Type[UObj], h.Instance]
         if t == "rec":
             key = json.dumps(d)
             if key not in self.recs:
@@ -168,6 +277,8 @@ class Universe:
             return member.value if (len(v) > 2 and v[2] == "value") else member
         if t == "r":
             return self.ref(v[1], v[2] if len(v) > 2 else 0)
+        if t == "o":
+            return self.obj(v[1], v[2] if len(v) > 2 else 0)
         if t == "P":        # Prefixed(number=Decimal(text), prefix): three equivalent constructions
             num, pre = Decimal(v[1]), Prefix(v[2])
             form = v[3] if len(v) > 3 else "new"
@@ -229,6 +340,10 @@ class Universe:
             return ["L", x.text]
         if t == "dec" and type(x) is Decimal and x.is_finite():
             return ["Dw"] + dec_tuple(x)
+        if t == "obj":
+            i = self.obj_index(x)
+            if i is not None:
+                return ["o", i]
         if t == "rec":
             return ["R", [self.encode(dd, getattr(x, f"r{i}")) for i, dd in enumerate(d[1])]]
         return ["?", repr(x)[:80]]
@@ -316,21 +431,26 @@ class Builtin:
 
 
 def run_history(job):
+    # shift the heap by an amount of the harness' choosing: addresses differ between the interpreters of one group
+    ballast = [object() for _ in range(int(job.get("ballast", 0)))]
     uni = Builtin(job) if job.get("builtin") else Universe(job)
     obs, mods, ids = [], [], {}
     for c in job["calls"]:
         try:
             m = uni.call(c)
         except BaseException as e:
+            # the caller catches the exception and goes on (a notebook cell run again, a try / except fallback)
             obs.append(["rej", type(e).__name__, str(e)[:200]])
-            break
+            continue
         if id(m) not in ids:
             ids[id(m)] = len(mods)
             mods.append(m)
         obs.append(["acc", ids[id(m)], m.name])
     final = [[i, m.name, ""] for i, m in enumerate(mods)]
     exported, err = False, None
-    if mods and obs[-1][0] == "acc":
+    from hdl21.generator import Generator
+    cache = dict(pending=len(Generator.Cache.pending), stack=len(Generator.Cache.stack))
+    if mods:
         try:
             pkg = h.to_proto(list(mods))
             names = [pm.name for pm in pkg.modules]
@@ -347,7 +467,8 @@ def run_history(job):
             exported = True
         except BaseException as e:
             err = f"{type(e).__name__}: {str(e)[:200]}"
-    return dict(obs=obs, final=final, runs=uni.runs, exported=exported, export_err=err)
+    del ballast
+    return dict(obs=obs, final=final, runs=uni.runs, exported=exported, export_err=err, cache=cache)
 
 
 def in_child(job):
